@@ -52,6 +52,10 @@ def gen(rng, tier):
                'tau': rng.choice([2, 3]), 'alpha': akind, 'dtype': rng.choice(['int32', 'int64'])}
     for case in gen_junction(rng, tier):
         yield case
+    for case in gen_big(rng, tier):
+        yield case
+    for case in gen_ring(rng, tier):
+        yield case
 
 
 def _junction(rng):
@@ -68,6 +72,42 @@ def _junction(rng):
                 cur = (cur + 1) % 3
         return t + [labs[end]]
     return [part(1, 0, rng.randint(40, 90)), part(2, 1, rng.randint(40, 90))], labs, akind
+
+
+def gen_ring(rng, tier):
+    for _ in range(6 if tier == 'quick' else 100):
+        k = rng.randint(5, 8)
+        p = rng.choice([0.6, 0.8, 0.9])
+        t = [rng.randrange(k)]
+        for _i in range(rng.randint(30, 80)):
+            r = rng.random()
+            t.append((t[-1] + 1) % k if r < p else t[-1] if r < p + (1 - p) / 2 else (t[-1] - 1) % k)
+        present = sorted(set(t))
+        if len(present) < 4:
+            continue
+        f = {a: 3 + 2 * (i % 3) for i, a in enumerate(present)}
+        trajs, labs2, akind = _junction(rng)
+        hist = [['call', 'emm_ring'], ['rand', 'msm_wt_ring', rng.randrange(10**6)], ['call', 'emm_ring'],
+                ['rand', 'msm_paths_ring', rng.randrange(10**6)], ['call', 'emm_ring']]
+        yield {'trajs': trajs, 'lag': 1, 'S': [labs2[0]], 'F': [labs2[2]], 'hist': hist, 'tau': 2, 'alpha': akind + '+ring',
+               'dtype': 'int64', 'ring': {'micro': t, 'macro': [f[v] for v in t]}}
+
+
+def gen_big(rng, tier):
+    for _ in range(1 if tier == 'quick' else 4):
+        # 2..8 trajectories with more than 100000 frames in total (run-length encoded; runs of 1..4 frames)
+        labs = [0, 1, 2]
+        rle = []
+        for _t in range(rng.choice([2, 4, 8])):
+            n, runs = 0, []
+            while n < rng.choice([50000, 60000]):
+                L = rng.randint(1, 4)
+                runs.append([rng.choice(labs), L])
+                n += L
+            rle.append(runs)
+        trajs, labs2, akind = _junction(rng)
+        yield {'trajs': trajs, 'lag': 1, 'S': [labs2[0]], 'F': [labs2[2]], 'hist': [['call', 'emm'], ['call', 'emm']],
+               'tau': 2, 'alpha': akind + '+big', 'dtype': 'int64', 'big': rle}
 
 
 def gen_junction(rng, tier):
@@ -132,6 +172,10 @@ def impl(case):
     lobj = mh.LumpedStateTraj([np.array([f[v] for v in t]) for t in case['trajs']], [np.array(t) for t in case['trajs']])
     f2 = {v: 60 + (i % 2) for i, v in enumerate(present)}       # a poor lumping (alternate microstates): negative projection entries are common
     lobj2 = mh.LumpedStateTraj([np.array([f2[v] for v in t]) for t in case['trajs']], [np.array(t) for t in case['trajs']])
+    if case.get('ring'):      # a bad 3-state lumping of a driven ring walk: the projection usually has negative entries
+        lobj3 = mh.LumpedStateTraj([np.array(case['ring']['macro'])], [np.array(case['ring']['micro'])])
+    else:
+        lobj3 = lobj2
     T, _ = mh.msm.estimate_markov_model([np.array(t) for t in case['trajs']], case['lag'])
     T = np.array(T)
     series = np.array([float(v) * 0.5 for v in case['trajs'][0]])
@@ -148,7 +192,7 @@ def impl(case):
     Tneg[0, int(np.argmax(T[0]))] += 0.05 + T[0].min()
     Tneg[0, int(np.argmin(T[0]))] -= 0.05 + T[0].min()
     Sarr, Farr = np.array(case['S']), np.array(case['F'])
-    shared = {'lobj2': lobj2, 'lagarr': lagarr, 'Tneg': Tneg, 'Sarr': Sarr, 'Farr': Farr,
+    shared = {'lobj2': lobj2, 'lobj3': lobj3, 'lagarr': lagarr, 'Tneg': Tneg, 'Sarr': Sarr, 'Farr': Farr,
               'trajs': trajs, 'arr2': arr2, 'obj': obj, 'lobj': lobj, 'T': T, 'series': series, 'table': table,
               'other': other, 'S': list(case['S']), 'F': list(case['F']), 'Tbig': Tbig, 'table_f': table_f, 'row1': row1,
               'oobj': oobj}
@@ -210,6 +254,10 @@ def impl(case):
         'msm_wt_lumped': lambda: mh.msm.estimate_waiting_times(trajs=lobj2, lagtime=lag, start=[60], final=[61], steps=200, return_list=True),
         'msm_tt_lumped': lambda: mh.msm.timescales.estimate_transition_times(trajs=lobj, lagtime=lag, start=[50], final=[51], steps=200),
         'emm_lumped2': lambda: lobj2.estimate_markov_model(lag),
+        'emm_ring': lambda: lobj3.estimate_markov_model(1),
+        'msm_wt_ring': lambda: mh.msm.estimate_waiting_times(trajs=lobj3, lagtime=1, start=[int(lobj3.states[0])], final=[int(lobj3.states[-1])], steps=200, return_list=True),
+        'msm_paths_ring': lambda: sorted((list(map(int, k)), list(map(int, v))) for k, v in mh.msm.estimate_paths(
+            trajs=lobj3, lagtime=1, start=[int(lobj3.states[0])], final=[int(lobj3.states[-1])], steps=200).items()),
         'format': lambda: mh.utils.format_state_traj(arr2),
         'statetraj': lambda: [mh.StateTraj(trajs).trajs, mh.StateTraj(arr2).index_trajs, mh.StateTraj(obj) is obj],
         'mcmc': lambda: mh.msm.timescales.propagate_MCMC(trajs, lag, 50),
@@ -254,6 +302,18 @@ def impl(case):
         return canon(x)
 
     first, problems, log = {}, [], []
+    if case.get('big'):
+        # a deterministic estimator on a big multi-trajectory input, called several times: always the same matrix
+        bigset = [np.array(t, dtype=np.int64) for t in G.expand({'trajs': None, 'rle': case['big']})]
+        ref = None
+        for _k in range(4):
+            Tb = mh.msm.estimate_markov_model(bigset, 1)[0]
+            if ref is None:
+                ref = Tb.copy()
+            elif not np.array_equal(ref, Tb):
+                problems.append('estimate_markov_model on %d trajectories with %d frames returned different matrices for identical calls '
+                                '(max difference %.3g)' % (len(bigset), sum(len(t) for t in bigset), float(np.abs(ref - Tb).max())))
+                break
     if case.get('junction'):
         # the same frames, joined into one trajectory, are sampled first; the sampler for the two separate
         # trajectories must afterwards still never take the step that exists only across the boundary
